@@ -305,8 +305,19 @@ func joinState(a, b *state) *state {
 	return n
 }
 
-// forget everything known about obj (it was assigned)
+var killHook func(obj types.Object) []types.Object
+
+// forget everything known about obj (it was assigned), and about the field paths that hang off it
 func (s *state) kill(obj types.Object) {
+	s.kill1(obj)
+	if killHook != nil {
+		for _, d := range killHook(obj) {
+			s.kill1(d)
+		}
+	}
+}
+
+func (s *state) kill1(obj types.Object) {
 	delete(s.lens, obj)
 	delete(s.lo, obj)
 	delete(s.hi, obj)
@@ -526,6 +537,10 @@ type analyser struct {
 	evenStep  map[types.Object]bool // scratch of assignedIn: every assignment is `+= even constant`
 	boolDef   map[types.Object]ast.Expr
 	x         *xinfo
+	paths     map[string]types.Object       // field paths rooted at a local (`s.timeStamps`, `state.bulkLen`) as pseudo-variables
+	pathRoot  map[types.Object]types.Object // pseudo-variable ↦ its root local
+	pathKey   map[types.Object]string
+	noPath    map[string]bool       // paths whose address is taken
 	tainted   map[types.Object]bool // fact F6: locals that (may) hold bytes of the command words (flow-insensitive, per function)
 	errTaint  map[types.Object]bool // … error values of calls that received such bytes (callee not known to return constant errors)
 }
@@ -869,10 +884,96 @@ func (a *analyser) record(n ast.Node, kind, class string, needed, minlen int64, 
 		Class: class, Needed: needed, MinLen: minlen, Base: base})
 }
 
+// Field paths.  `r.f.g` with r a tracked local and f, g struct fields is treated as a variable of its own.  Besides an assignment to the
+// path, to a prefix of it or to r, EVERY call that is evaluated (other than builtins and conversions) forgets all facts about all paths —
+// a callee may reach the struct through a pointer.  Other goroutines are not considered (the structures concerned are accessed under the
+// key's stripe or owned by one goroutine).
+func (a *analyser) pathObj(e ast.Expr) types.Object {
+	sel, ok := ast.Unparen(e).(*ast.SelectorExpr)
+	if !ok || a.paths == nil {
+		return nil
+	}
+	names := []string{}
+	var cur ast.Expr = sel
+	for {
+		s, ok := ast.Unparen(cur).(*ast.SelectorExpr)
+		if !ok {
+			break
+		}
+		if sl := a.info.Selections[s]; sl == nil || sl.Kind() != types.FieldVal {
+			return nil
+		}
+		names = append([]string{s.Sel.Name}, names...)
+		cur = s.X
+	}
+	id, ok := ast.Unparen(cur).(*ast.Ident)
+	if !ok {
+		return nil
+	}
+	root := a.info.Uses[id]
+	if root == nil || a.pathRoot[root] != nil || !a.local(root) {
+		return nil
+	}
+	key := fmt.Sprintf("%p.%s", root, strings.Join(names, "."))
+	if a.noPath[id.Name+"."+strings.Join(names, ".")] {
+		return nil
+	}
+	if o, ok := a.paths[key]; ok {
+		return o
+	}
+	t := a.info.TypeOf(e)
+	if t == nil {
+		return nil
+	}
+	o := types.NewVar(token.NoPos, a.pkg, id.Name+"."+strings.Join(names, "."), t)
+	a.paths[key], a.pathRoot[o], a.pathKey[o] = o, root, key
+	return o
+}
+
+// the pseudo-variables that die with obj: paths rooted at it, and longer paths
+func (a *analyser) dependents(obj types.Object) []types.Object {
+	var out []types.Object
+	key, isPath := a.pathKey[obj]
+	for p, root := range a.pathRoot {
+		if root == obj || (isPath && strings.HasPrefix(a.pathKey[p], key+".")) {
+			out = append(out, p)
+		}
+	}
+	return out
+}
+
+func (a *analyser) containsCall(n ast.Node) bool {
+	if n == nil || len(a.pathRoot) == 0 {
+		return false
+	}
+	found := false
+	ast.Inspect(n, func(c ast.Node) bool {
+		if call, ok := c.(*ast.CallExpr); ok {
+			if id, isId := ast.Unparen(call.Fun).(*ast.Ident); isId {
+				if _, isB := a.info.Uses[id].(*types.Builtin); isB {
+					return true
+				}
+			}
+			if tv, ok := a.info.Types[call.Fun]; ok && tv.IsType() {
+				return true
+			}
+			found = true
+		}
+		return !found
+	})
+	return found
+}
+
+func (a *analyser) killPaths(st *state) {
+	for p := range a.pathRoot {
+		st.kill(p)
+	}
+}
+
 func (a *analyser) objOf(e ast.Expr) types.Object {
 	id, ok := ast.Unparen(e).(*ast.Ident)
 	if !ok {
-		return nil
+		return a.pathObj(e)
 	}
 	if o := a.info.Uses[id]; o != nil {
 		return o
@@ -881,6 +982,9 @@ func (a *analyser) objOf(e ast.Expr) types.Object {
 }
 
 func (a *analyser) local(obj types.Object) bool {
+	if a.pathRoot[obj] != nil {
+		return true
+	}
 	v, ok := obj.(*types.Var)
 	if !ok || v.IsField() || a.untracked[obj] || obj.Pkg() == nil {
 		return false
@@ -995,6 +1099,10 @@ func (a *analyser) lin(e ast.Expr, st *state) linForm {
 			if x, ok := st.alias[obj]; ok {
 				return linForm{kind: lfLen, obj: x}
 			}
+			return linForm{kind: lfVar, obj: obj}
+		}
+	case *ast.SelectorExpr:
+		if obj := a.intVar(v); obj != nil {
 			return linForm{kind: lfVar, obj: obj}
 		}
 	case *ast.CallExpr:
@@ -1162,6 +1270,14 @@ func (a *analyser) assumeCmp(st *state, l linForm, op token.Token, r linForm) {
 
 // the state in which cond evaluated to pol
 func (a *analyser) assume(st *state, cond ast.Expr, pol bool) *state {
+	r := a.assume0(st, cond, pol)
+	if a.containsCall(cond) {
+		a.killPaths(r) // the call may run after the comparison it stands next to
+	}
+	return r
+}
+
+func (a *analyser) assume0(st *state, cond ast.Expr, pol bool) *state {
 	if st.dead || a.bail {
 		return st.clone()
 	}
@@ -1670,7 +1786,7 @@ func (a *analyser) expr(e ast.Node, st *state) {
 func (a *analyser) closure(f *ast.FuncLit, st *state) {
 	inner := newState()
 	if !st.dead && !a.bail {
-		stable := func(o types.Object) bool { return a.nassign[o] == 0 && !a.untracked[o] }
+		stable := func(o types.Object) bool { return a.nassign[o] == 0 && !a.untracked[o] && a.pathRoot[o] == nil }
 		for k, v := range st.lens {
 			if stable(k) {
 				inner.lens[k] = v
@@ -1708,10 +1824,12 @@ func (a *analyser) assignedIn(nodes ...ast.Node) map[types.Object]bool {
 	a.evenStep = map[types.Object]bool{}
 	mark := func(e ast.Expr, mono bool) {
 		id, ok := ast.Unparen(e).(*ast.Ident)
-		if !ok {
-			return
+		var obj types.Object
+		if ok {
+			obj = a.info.Uses[id]
+		} else {
+			obj, mono = a.pathObj(e), false
 		}
-		obj := a.info.Uses[id]
 		if obj == nil {
 			return
 		}
@@ -1780,6 +1898,12 @@ func (a *analyser) weaken(st *state, nodes ...ast.Node) *state {
 			}
 		} else {
 			n.kill(obj)
+		}
+	}
+	for _, nd := range nodes {
+		if nd != nil && a.containsCall(nd) {
+			a.killPaths(n)
+			break
 		}
 	}
 	return n
@@ -1931,6 +2055,10 @@ func (a *analyser) valueOf(lhsType types.Type, rhs ast.Expr, st *state) valFact 
 				f.lens = lenset{{n, n}}
 			} else if l := a.lin(v.Args[1], st); l.kind == lfLen {
 				f.lge = map[types.Object]int64{l.obj: l.c}
+			} else if l.kind == lfVar {
+				if lo, ok := st.lo[l.obj]; ok && lo+l.c > 0 {
+					f.lens = lenset{{lo + l.c, inf}}
+				}
 			}
 		case a.builtin(v.Fun, "append") && len(v.Args) >= 1 && v.Ellipsis == token.NoPos:
 			base := int64(0)
@@ -2087,6 +2215,24 @@ func (a *analyser) assign(s *ast.AssignStmt, st *state) *state {
 }
 
 func (a *analyser) stmt(s ast.Stmt, st *state) *state {
+	switch s.(type) {
+	case *ast.ExprStmt, *ast.AssignStmt, *ast.IncDecStmt, *ast.DeclStmt, *ast.SendStmt, *ast.GoStmt, *ast.DeferStmt:
+		out := a.stmt0(s, st)
+		if a.containsCall(s) && !out.dead {
+			out = out.clone()
+			a.killPaths(out)
+		}
+		return out
+	case *ast.SwitchStmt:
+		if sw := s.(*ast.SwitchStmt); sw.Tag != nil && a.containsCall(sw.Tag) {
+			st = st.clone()
+			a.killPaths(st)
+		}
+	}
+	return a.stmt0(s, st)
+}
+
+func (a *analyser) stmt0(s ast.Stmt, st *state) *state {
 	if a.bail {
 		st = newState()
 	}
@@ -2224,7 +2370,7 @@ func (a *analyser) stmt(s ast.Stmt, st *state) *state {
 						body.hi[key] = n - 1
 					}
 					if x := a.lenVar(v.X); x != nil {
-						if _, reassigned := a.assignedIn(v.Body)[x]; !reassigned {
+						if _, reassigned := a.assignedIn(v.Body)[x]; !reassigned && !(a.pathRoot[x] != nil && a.containsCall(v.Body)) {
 							body.rel[relKey{x, key}] = 1
 						}
 					}
@@ -2255,6 +2401,9 @@ func (a *analyser) stmt(s ast.Stmt, st *state) *state {
 				op = token.NEQ
 			}
 			a.assumeCmp(n, a.lin(v.Tag, cur), op, a.lin(c, cur))
+			if a.containsCall(c) {
+				a.killPaths(n)
+			}
 			return n
 		})
 	case *ast.TypeSwitchStmt:
@@ -2370,6 +2519,16 @@ func (a *analyser) prepare(body ast.Node) {
 	a.nassign = map[types.Object]int{}
 	a.counter = map[types.Object]bool{}
 	a.boolDef = map[types.Object]ast.Expr{}
+	a.paths, a.pathRoot, a.pathKey, a.noPath = map[string]types.Object{}, map[types.Object]types.Object{}, map[types.Object]string{}, map[string]bool{}
+	killHook = a.dependents
+	ast.Inspect(body, func(n ast.Node) bool {
+		if u, ok := n.(*ast.UnaryExpr); ok && u.Op == token.AND {
+			if _, isSel := ast.Unparen(u.X).(*ast.SelectorExpr); isSel {
+				a.noPath[a.text(u.X)] = true
+			}
+		}
+		return true
+	})
 	a.bail = false
 	boolCand := map[types.Object]ast.Expr{}
 	notCounter := map[types.Object]bool{}
